@@ -1,5 +1,6 @@
-"""Running the real LASFile.write and rendering (texts, snapshot) in the canonical form of
-coq/Corr/WriteShow.v; building the formatting-oracle table (fmt % float(tok), computed by CPython)."""
+"""Pipelines over the real lasio (read / edit in memory / write / re-read ...) rendered in the
+canonical form of coq/Corr/WriteShow.v `run_pipeline`, plus the oracle tables (float.hex,
+str() and `fmt % x` of every candidate token, computed by CPython)."""
 import io
 
 import numpy as np
@@ -8,12 +9,13 @@ import lib
 import readmodel as rm
 
 FS, RS, IS = rm.FS, rm.RS, rm.IS
-IS2 = ""
+IS2 = "\ue003"
+OPS = "\ue004"
 MARK = "\x01FTAB"
 
-RUN_WRITE = """
+RUN_PIPE = """
 Require Import WriteShow.
-Definition run := run_write.
+Definition run := run_pipeline.
 """
 
 
@@ -27,61 +29,128 @@ def wopt_code(version=None, wrap=None, fmt="%.5f", column_fmt=None, len_numeric_
                     "T" if mnemonics_header else "F"])
 
 
-def impl_write(text, rkw, wkw, nwrites=1):
-    """-> (canonical string, list of written texts, las or None)"""
-    import lasio
+# ops: ("R", rkw) | ("W", wkw) | ("EN",) | ("ES", j, [tokens]) | ("EV", sect_letter, mnemonic, text)
+def op_code(op):
+    if op[0] == "R":
+        return "R" + rm.opt_code(**op[1])
+    if op[0] == "W":
+        return "W" + wopt_code(**op[1])
+    if op[0] == "EN":
+        return "EN"
+    if op[0] == "ES":
+        return "ES" + str(op[1]) + IS + IS2.join(op[2])
+    if op[0] == "EV":
+        return "EV" + op[1] + IS + op[2] + IS + op[3]
+    raise ValueError(op)
+
+
+SECT = {"V": "Version", "W": "Well", "C": "Curves", "P": "Parameter"}
+
+
+def tocell(t):
     try:
-        las = lasio.read(text, **rkw)
-    except Exception as e:
-        return rm.err_class(e), [], None
-    out = ""
-    texts = []
-    for _ in range(nwrites):
-        buf = io.StringIO()
-        try:
-            las.write(buf, **wkw)
-        except Exception:
-            return out + "ERR", texts, None
-        texts.append(buf.getvalue())
-        out += buf.getvalue() + RS + RS
-    return out + rm.show_las(las), texts, las
+        return float(np.float64(t))
+    except ValueError:
+        return t
 
 
-def fmt_table(text, rkw, wkw):
-    """flat triples fmt, tok, text for every float-able candidate token and every format in use,
-    plus the pi and index-difference entries"""
+def run_impl(text, ops):
+    """-> dict(canon=str, texts=[...], las=<last LASFile or None>, fmts=set, diffs=[(hex1, hex0, text)])"""
     import lasio
-    fmts = {"%.5f", wkw.get("fmt", "%.5f")} | set((wkw.get("column_fmt") or {}).values())
-    parts = []
-    toks = rm.candidate_tokens(text)
-    for t in sorted(toks):
-        if FS in t or RS in t:
+    out = ""
+    texts, all_texts = [], [text]
+    las = None
+    cur = text
+    fmts = {"%.5f"}
+    diffs = []
+    extra_tokens = set()
+
+    def note_diff():
+        try:
+            idx = las.index
+            if len(idx) >= 2 and isinstance(idx[0], float) and isinstance(idx[1], float):
+                diffs.append((float(idx[1]).hex(), float(idx[0]).hex(), "%.5f" % (idx[1] - idx[0])))
+        except Exception:
+            pass
+
+    for op in ops:
+        if op[0] == "R":
+            try:
+                las = lasio.read(cur, **op[1])
+            except Exception as e:
+                return dict(canon=out + rm.err_class(e), texts=texts, las=None, fmts=fmts, diffs=diffs, all_texts=all_texts, extra=extra_tokens)
+            note_diff()
+        elif op[0] == "W":
+            fmts.add(op[1].get("fmt", "%.5f"))
+            fmts |= set((op[1].get("column_fmt") or {}).values())
+            note_diff()
+            buf = io.StringIO()
+            try:
+                las.write(buf, **op[1])
+            except Exception:
+                return dict(canon=out + "ERR", texts=texts, las=None, fmts=fmts, diffs=diffs, all_texts=all_texts, extra=extra_tokens)
+            cur = buf.getvalue()
+            texts.append(cur)
+            all_texts.append(cur)
+            out += cur + RS + RS
+        elif op[0] == "EN":
+            las.index_initial = None
+        elif op[0] == "ES":
+            vals = [tocell(t) for t in op[2]]
+            extra_tokens |= set(op[2])
+            if all(isinstance(v, float) for v in vals):
+                las.curves[op[1]].data = np.array(vals, dtype=float)
+            else:
+                las.curves[op[1]].data = np.array([str(v) if not isinstance(v, str) else v for v in vals])
+        elif op[0] == "EV":
+            try:
+                las.sections[SECT[op[1]]][op[2]].value = op[3]
+            except KeyError:
+                pass                     # the model's edit is a no-op too when the item is absent
+    if las is not None:
+        out += rm.show_las(las)
+    return dict(canon=out, texts=texts, las=las, fmts=fmts, diffs=diffs, all_texts=all_texts, extra=extra_tokens)
+
+
+def tables(r):
+    toks = set(r["extra"])
+    for t in r["all_texts"]:
+        toks |= rm.candidate_tokens(t)
+    more = set()
+    for t in toks:
+        try:
+            more.add(str(int(t)))
+        except ValueError:
+            pass
+    tab, ftab = [], []
+    for t in sorted(toks | more):
+        if FS in t or RS in t or IS in t or IS2 in t or OPS in t:
             continue
         try:
             f = np.float64(t)
         except ValueError:
+            tab += [t, "ERR", ""]
             continue
-        for fm in sorted(fmts):
+        tab += [t, float(f).hex(), str(f)]
+        for fm in sorted(r["fmts"]):
             try:
-                parts += [fm, t, fm % f]
+                ftab += [fm, t, fm % f]
             except Exception:
                 pass
-    for fm in sorted(fmts):
+    for fm in sorted(r["fmts"]):
         try:
-            parts += [fm, "\x01PI", fm % np.pi]
+            ftab += [fm, "\x01PI", fm % np.pi]
         except Exception:
             pass
-    try:
-        las = lasio.read(text, **rkw)
-        idx = las.index
-        if len(idx) >= 2 and isinstance(idx[0], float) and isinstance(idx[1], float):
-            parts += ["%.5f", "\x01D" + float(idx[1]).hex() + "\x01" + float(idx[0]).hex(), "%.5f" % (idx[1] - idx[0])]
-    except Exception:
-        pass
-    return parts
+    for h1, h0, txt in r["diffs"]:
+        ftab += ["%.5f", "\x01D" + h1 + "\x01" + h0, txt]
+    return tab, ftab
 
 
-def coq_case(text, expected, rkw, wkw, nwrites=1):
-    rcode = rm.opt_code(**rkw)
-    inp = FS.join([rcode, wopt_code(**wkw), str(nwrites), text] + rm.oracle_table(text) + [MARK] + fmt_table(text, rkw, wkw))
-    return (inp, expected)
+def coq_case(text, ops, r=None):
+    """-> ((input, expected), impl result dict)"""
+    if r is None:
+        r = run_impl(text, ops)
+    tab, ftab = tables(r)
+    inp = FS.join([OPS.join(op_code(o) for o in ops), text] + tab + [MARK] + ftab)
+    return (inp, r["canon"]), r
